@@ -306,6 +306,9 @@ def file_cases(tier):
         [("a.h5", (1, 1))],
         [("a.h5", (2, 2)), ("b.h5", (1, 1))],
         [("x/a.h5", (2, 1)), ("x/y/b.h5", (1, 1)), ("c.h5", (1, 2))],
+        [("m1.h5", (2, 2)), ("m2.h5", (3, 1)), ("m3.h5", (2, 2)),
+         ("s.h5", (1, 1))],
+        [("p/m1.h5", (3, 2)), ("q/m2.h5", (3, 2))],
     ]
     for f in folders:
         cases.append({"kind": "file", "sub": "folder", "files": f})
